@@ -107,3 +107,53 @@ Theorem C04_invariant_reachable :
   forall ctx (p : list (KTypes.op (T N))), Inv N (fst (run N (init N ctx) p)).
 Proof. exact reachable_Inv. Qed.
 Print Assumptions C04_invariant_reachable.
+
+(* ---------- |correlation| <= 1 whenever the declared correlation matrix is positive
+   semi-definite (Cauchy-Schwarz for the LPU form; vectors of any length) ---------- *)
+From GTCV Require Import CauchySchwarz ReachableCS.
+
+(* the hypothesis: for every weighting d of the dependent inputs, sum_ij d_i r_ij d_j >= 0 *)
+Theorem C04_cauchy_schwarz_reachable :
+  forall ctx (p : list (KTypes.op R)) i j a ca b cb c va vb,
+    let s := fst (run RNum (init RNum ctx) p) in
+    psd_on s (dep_leaf s) ->
+    nth_error (s_slots s) i = Some (SReal a ca) -> nth_error (s_slots s) j = Some (SReal b cb) ->
+    std_covariance_real RNum s a b = Ok c ->
+    std_variance_real RNum s a = Ok va -> std_variance_real RNum s b = Ok vb ->
+    0 <= va /\ 0 <= vb /\ c * c <= va * vb.
+Proof. exact reachable_cauchy_schwarz. Qed.
+Print Assumptions C04_cauchy_schwarz_reachable.
+
+(* get_correlation(a, b) = cov / sqrt(var var) of two numbers, at least one of them a result,
+   in any reachable state *)
+Theorem C04_correlation_in_unit_interval :
+  forall ctx (p : list (KTypes.op R)) i j a ca b cb r,
+    let s := fst (run RNum (init RNum ctx) p) in
+    psd_on s (dep_leaf s) ->
+    nth_error (s_slots s) i = Some (SReal a ca) -> nth_error (s_slots s) j = Some (SReal b cb) ->
+    ((forall k, unode a <> LeafRef k) \/ (forall k, unode b <> LeafRef k)) ->
+    get_correlation_real RNum s a b = Ok r -> -1 <= r <= 1.
+Proof. exact reachable_correlation_bounded. Qed.
+Print Assumptions C04_correlation_in_unit_interval.
+
+(* and the coefficient recorded between two elementary inputs *)
+Theorem C04_declared_coefficient_in_unit_interval :
+  forall ctx (p : list (KTypes.op R)) k1 k2,
+    let s := fst (run RNum (init RNum ctx) p) in
+    psd_on s (dep_leaf s) -> dep_leaf s k1 -> dep_leaf s k2 -> -1 <= Rs s k1 k2 <= 1.
+Proof. exact reachable_declared_bounded. Qed.
+Print Assumptions C04_declared_coefficient_in_unit_interval.
+
+(* PSD can be established from a factorisation r_ij = sum_m f_m(i) f_m(j), and the hypotheses
+   are satisfiable: two inputs with r = 3/5, two results with non-zero covariance *)
+Theorem C04_psd_of_factors :
+  forall s (K : key -> Prop) (fs : list (key -> R)),
+    (forall k k', K k -> K k' -> Rs s k k' = gram fs k k') -> psd_on s K.
+Proof. exact psd_of_factors. Qed.
+Print Assumptions C04_psd_of_factors.
+
+Example C04_cauchy_schwarz_nonvacuous :
+  psd_on cs_state cs_K /\ sym_on cs_state cs_K /\ (forall k, cs_K k -> Rs cs_state k k = 1) /\
+  well_placed cs_state cs_K cs_y1 /\ well_placed cs_state cs_K cs_y2 /\
+  (exists c, std_covariance_real RNum cs_state cs_y1 cs_y2 = Ok c /\ c <> 0).
+Proof. exact cs_hypotheses_hold. Qed.
